@@ -65,14 +65,14 @@ CHECKS = {
                mc(2, [5, 6], DEL, SWAP, Modes='ModesDeferred', BUSets='BUTwo')],
         thorough=[mc(3, MAINSEEDS, DEL + GC, DEL + GC + ['add_vertex', 'add_edge', 'add_face_v', 'clear', 'enable_deferred'], BUSets='BUTwo'),
                   mc(2, MAINSEEDS, DEL, SWAP, BUSets='BUTwo')],
-        sim=dict(ops=DEL + GC + ADDS + SWAP + MODE + ['clear']),
+        sim=dict(ops=DEL + GC + ADDS + SWAP + MODE + ['clear', 'more_props']),
     ),
     'C04': dict(
         props=['C04', 'C03'], opts='props=1',
-        quick=[mc(3, SMALL + [3], DEL, GC + ['enable_deferred'], Modes='ModesDeferred'),
+        quick=[mc(3, [2, 5, 6, 3], DEL, GC + ['enable_deferred'], Modes='ModesDeferred'),
                mc(3, [1, 5, 2], ['delete_cell', 'add_cell_closed'], GC + ['enable_deferred'], Modes='ModesDeferred', BUSets='BUTwo'),
-               mc(2, [2, 4, 5, 3], DEL, ['status_gc'], BUSets='BUTwo'),
-               mc(1, [2, 4], [], ['status_gc'])],
+               mc(2, [1, 5], DEL, ['status_gc'], BUSets='BUTwo'),
+               mc(1, [2, 4, 3], [], ['status_gc'], Modes='ModesTwo', BUSets='BUTwo')],
         thorough=[mc(4, MAINSEEDS, DEL, GC + ['enable_deferred'], Modes='ModesDeferred'),
                   mc(2, MAINSEEDS, DEL, ['status_gc'])],
         sim=dict(ops=DEL + DEL + GC + ADDS + MODE),
